@@ -60,7 +60,7 @@ def parse(path):
 def run(tier, seed):
     chk = vlib.Check("C20", tier, seed)
     os.makedirs(os.path.join(vlib.BUILD, "stats"), exist_ok=True)
-    n = 100 if tier == "quick" else 2000
+    n = 100 if tier == "quick" else 1000
     cases = sim_common.make_cases("C20", tier, seed, n, variants=(0, 0, 1, 0), fp_levels=(2, 10, 3, 1), sizes=(0, 0, 1), stats=True,
                                   threads=[1, 2, 3, 4, 8, 2, 12, 5], gvts=[0, 20, 1000, 100000, 300, 5000, 200])
     recs = sim_common.run_sim_cases(chk, cases, timeout=300, retries=0)
@@ -130,7 +130,7 @@ def run(tier, seed):
         compare(res.tag, res.cmd, path, [res.out])
     # multi-rank runs: the records of the other ranks travel through mpi_blocking_data_send/_rcv into the same file
     chk.soft_fraction = 0.3
-    mcases = mpi_common.make_cases("C20", tier, seed, 8 if tier == "quick" else 120, variants=(0,), fault_rates=(0,), layouts=[(2, 2), (2, 1), (3, 2), (2, 3)])
+    mcases = mpi_common.make_cases("C20", tier, seed, 8 if tier == "quick" else 60, variants=(0,), fault_rates=(0,), layouts=[(2, 2), (2, 1), (3, 2), (2, 3)])
     for c in mcases:
         c["stats"] = os.path.join(vlib.BUILD, "stats", "C20m_%d_%d" % (os.getpid(), c["k"]))
     for c, res, texts, anomaly in mpi_common.run_mpi_cases(chk, mcases, timeout=30 if tier == "quick" else 90, retries=0):
